@@ -460,7 +460,7 @@ impl Sim {
         if let Some(f) = self.clock {
             let e = f();
             if e != self.last_epoch {
-                self.stats.epoch_advances = self.stats.epoch_advances.wrapping_add(e.wrapping_sub(self.last_epoch));
+                self.stats.epoch_advances = self.stats.epoch_advances.wrapping_add(e.wrapping_sub(self.last_epoch) & (u64::MAX >> 1));
                 self.last_epoch = e;
             }
         }
@@ -769,6 +769,10 @@ pub fn run(cfg: SimConfig, mon: Box<dyn Monitor>, specs: Vec<ThreadSpec>, clock:
     });
     unsafe {
         SIM = Box::into_raw(s);
+    }
+    if sim().last_epoch > (1 << 62) {
+        // clock jump: the run starts a few ticks before the 63-bit epoch counter wraps
+        sim().fault("clock_near_wrap");
     }
     TURN.store(MAIN, SeqCst);
     let mut reapers = Vec::new();
